@@ -33,7 +33,7 @@ fn main() {
                     let sink = gens::Sink(o2);
                     match engine.as_str() {
                         "pure" => gens::gen_pure(seed, thorough, &sink),
-                        "seq" => gens::gen_seq(seed, if thorough { 8_000 } else { 1_500 }, if thorough { 100 } else { 40 }, false, false, &sink),
+                        "seq" => gens::gen_seq(seed, if thorough { 8_000 } else { 1_500 }, if thorough { 100 } else { 40 }, false, false, false, &sink),
                         "conc" => gens::gen_conc(seed, if thorough { 600 } else { 150 }, if thorough { 24 } else { 12 }, &sink),
                         "concx" => gens::gen_concx(seed, if thorough { 200 } else { 40 }, &sink),
                         "codec" => codec::gen_codec(seed, if thorough { 1_500 } else { 300 }, if thorough { 6_000 } else { 1_500 }, &sink),
@@ -41,8 +41,9 @@ fn main() {
                         "snap" => jsonc::gen_snap(seed, if thorough { 4 } else { 3 }, if thorough { 5_000 } else { 1_500 }, false, &sink),
                         "snapx" => jsonc::gen_snap(seed, 1, 0, true, &sink),
                         "queue" => gens::gen_queue(seed, if thorough { 12_000 } else { 4_000 }, if thorough { 60 } else { 30 }, &sink),
-                        "seq0" => gens::gen_seq(seed, if thorough { 8_000 } else { 1_500 }, if thorough { 100 } else { 40 }, true, false, &sink),
-                        "seqr" => gens::gen_seq(seed, if thorough { 8_000 } else { 1_500 }, if thorough { 100 } else { 40 }, true, true, &sink),
+                        "seq0" => gens::gen_seq(seed, if thorough { 8_000 } else { 1_500 }, if thorough { 100 } else { 40 }, true, false, false, &sink),
+                        "seqp" => gens::gen_seq(seed ^ 0x7070, if thorough { 8_000 } else { 1_500 }, if thorough { 100 } else { 40 }, true, false, true, &sink),
+                        "seqr" => gens::gen_seq(seed, if thorough { 8_000 } else { 1_500 }, if thorough { 100 } else { 40 }, true, true, true, &sink),
                         _ => {
                             eprintln!("unknown engine {engine}");
                             std::process::exit(2);
